@@ -44,11 +44,12 @@ def canon_entry(e, paths):
 
 def observe(fn, paths):
     """(ff, collected) of a validation function taking errs-or-None."""
+    from metapype.eml.exceptions import MetapypeRuleError
     try:
         fn(None)
         ff = ["OK", ""]
     except Exception as ex:  # noqa
-        ff = [type(ex).__name__, str(ex)]
+        ff = [("" if isinstance(ex, MetapypeRuleError) else "CRASH:") + type(ex).__name__, str(ex)]
     errs = []
     try:
         fn(errs)
@@ -62,7 +63,7 @@ def tree_vs_nodes(t):
     """Returns (tree observation, expected observation from per-node validation)."""
     from metapype.eml import validate
     from metapype.model.node import Node
-    root = RL.build_tree(t)
+    root = VT.build_tree(t)
     paths = node_paths(root)
     got = observe(lambda errs: validate.tree(root, errs), paths)
     exp_ff, exp_col = ["OK", ""], []
@@ -136,11 +137,19 @@ def run(ctx):
                          "at least one metadata element")
     coq_cases, coq_wants, coq_meta = [], [], []
     plan = [(big, True)] * n_big + [(None, False)] * n_small
+    # two independent problems in document order (every error kind first, a children problem second, and other orders);
+    # nodes with more than 256 children / attributes
+    pairs = VT.problem_pairs(rng, thorough)
+    plan += [(pt, "pair:" + lbl) for lbl, pt in rng.sample(pairs, min(len(pairs), 2500 if thorough else 500))]
+    plan += [(wt, lbl) for lbl, wt in VT.wide_trees(rng)]
     for base, is_big in plan:
-        t = copy.deepcopy(base) if is_big else copy.deepcopy(rng.choice(docs if rng.random() < 0.4 else small))
-        add_foreign_metadata(rng, t)
-        k = rng.choice([0, 1, 1, 2, 2, 3, 4])
-        ops = VT.mutate(rng, t, n_ops=k, avoid_below_metadata=rng.random() < 0.7) if k else []
+        if isinstance(is_big, str):
+            t, ops = copy.deepcopy(base), [is_big]
+        else:
+            t = copy.deepcopy(base) if is_big else copy.deepcopy(rng.choice(docs if rng.random() < 0.4 else small))
+            add_foreign_metadata(rng, t)
+            k = rng.choice([0, 1, 1, 2, 2, 3, 4])
+            ops = VT.mutate(rng, t, n_ops=k, avoid_below_metadata=rng.random() < 0.7) if k else []
         got, exp, n_fail = tree_vs_nodes(t)
         mds = metadata_nodes(t)
         sig = repr(t)
@@ -155,13 +164,17 @@ def run(ctx):
         if got[0] != exp[0]:
             ctx.fail("C05:failfast-first", "fail-fast validate.tree did not raise what the first failing visible node raises",
                      dict(rep, observed=got[0], expected=exp[0]))
+        # every implementation run also passes through the totality statement (C04): nothing but rule errors escapes
+        if got[0][0].startswith("CRASH:") or any(e[0].startswith(("RAISED:", "MALFORMED-ENTRY")) for e in got[1]):
+            ctx.fail("C05:foreign-exception", f"validate.tree let a non-rule exception escape or raised in collecting mode: ff={got[0]} last={got[1][-1:]}",
+                     dict(rep, observed_ff=got[0], observed=got[1]))
         if (got[0][0] == "OK") != (got[1] == []):
             ctx.fail("C05:modes", "validate.tree succeeded in one mode and not in the other", dict(rep, observed_ff=got[0], observed=got[1]))
         ctx.sample({"size": VT.size(t), "edits": ops, "failing_visible_nodes": n_fail, "metadata_elements": len(mds),
                     "ff": got[0][0], "codes": [e[0] for e in got[1]][:6]}, limit=6)
         # history: the same tree object validated repeatedly (collect, collect again, fail-fast, into a non-empty
         # list, after in-place edits and after undoing them) must give what a freshly built identical tree gives
-        for call in ("tree", "node"):
+        for call in (("tree", "node") if not isinstance(is_big, str) or rng.random() < 0.1 else ()):
             for step, what, details in VT.history_problems(rng, t, call=call, n_edits=1 if VT.size(t) > 40 else 2):
                 ctx.fail("C05:history:" + call + ":" + step.split("/")[-1], what, details)
             ctx.case()
@@ -188,7 +201,10 @@ def run(ctx):
                     ctx.fail("C05:metadata-count", "giving a metadata element more than one child did not add exactly one MAX_OCCURRENCE_EXCEEDED at it",
                              {"kind": "impl-vs-statement", "tree": t, "tree_with_more_children": t3, "observed": got[1], "observed_after": got3[1]})
         if VT.size(t) <= 40 and len(coq_cases) < n_coq:
-            ff, codes = RL.impl_tree(t)
+            ff, codes = RL.impl_tree(VT.fresh_tree(t))
+            if ff.startswith("CRASH") or any(c.startswith("CRASH") or c == "MALFORMED-ENTRY" for c in codes):
+                ctx.fail("C05:foreign-exception", f"validate.tree let a non-rule exception escape: ff={ff} codes={codes}",
+                         {"kind": "impl-vs-statement", "tree": t, "edits": ops, "observed_ff": ff, "observed_codes": codes})
             coq_cases.append(RL.coq_tcase(t))
             coq_wants.append(RL.coq_outcome((ff, codes)))
             coq_meta.append({"tree": t, "observed": [ff, codes]})
